@@ -19,7 +19,10 @@ vars == <<prog, wf>>
 
 NameRank(n) == IF n = NoName THEN 100 ELSE IF n = "u" THEN 99 ELSE CHOOSE j \in 1..Len(Shared) : Shared[j] = n
 
-Weight(P) == (NSc(P) - 1) + Cardinality(Named(P))
+(* a site record carries w: 1 for a chosen site, 0 for a carrier parameter that only exists so that a default /   *)
+(* annotation site has something to attach to (fresh name, added together with the site that needs it)         *)
+Charged(P) == {i \in Named(P) : P.st[i].w = 1}
+Weight(P) == (NSc(P) - 1) + Cardinality(Charged(P))
 LastKey(P) == IF NSt(P) = 0 THEN <<1, 0, 0>> ELSE LET t == P.st[NSt(P)] IN <<t.c, Rank(t.k), NameRank(t.n)>>
 (* canonical order: strictly increasing keys, except that several child scopes may share a position *)
 After(P, c, k, n) == LET l == LastKey(P) IN
@@ -30,33 +33,43 @@ After(P, c, k, n) == LET l == LastKey(P) IN
 UsedNames(P) == NamesOf(P, Named(P))
 NameChoices(P) == {"u"} \cup {Shared[j] : j \in {x \in 1..Len(Shared) : x = 1 \/ Shared[x - 1] \in UsedNames(P)}}
 
-Room(P, c) == Cardinality(SitesIn(P, c)) < MaxPerScope /\ Weight(P) < MaxWeight
+ChargedIn(P, c) == {i \in SitesIn(P, c) : P.st[i].w = 1}
+Room(P, c) == Cardinality(ChargedIn(P, c)) < MaxPerScope /\ Weight(P) < MaxWeight
 
 Init == prog = Memo([sc |-> <<[kind |-> "module", site |-> 0]>>, st |-> <<>>]) /\ wf = TRUE
 
 Put(P) == prog' = Memo(P) /\ wf' = WellFormed(prog')
 
+(* the carrier a header site needs, if the construct does not have enough parameters yet *)
+Carrier(P, c, k) ==
+  LET need == CASE k = "default"   -> Count(P, c, {"default"}) >= Count(P, c, {"param"})
+                [] k = "kwdefault" -> Count(P, c, {"kwdefault"}) >= Count(P, c, {"kwparam"})
+                [] k = "argann"    -> Count(P, c, {"argann"}) >= Count(P, c, ParamPos)
+                [] OTHER           -> FALSE
+  IN IF need THEN <<[c |-> c, k |-> IF k = "kwdefault" THEN "kwparam" ELSE "param", n |-> "u", ch |-> 0, w |-> 0]>> ELSE <<>>
+
 AddName(c, k, n) ==
   /\ k \in PosOf(KindS(prog, c)) \cap PosOn /\ k \notin {"def", "class"}
-  /\ Room(prog, c) /\ Cardinality(Named(prog)) < MaxNamed /\ After(prog, c, k, n)
-  /\ Put([sc |-> prog.sc, st |-> Append(prog.st, [c |-> c, k |-> k, n |-> n, ch |-> 0])])
+  /\ Room(prog, c) /\ Cardinality(Charged(prog)) < MaxNamed /\ After(prog, c, k, n)
+  /\ Put([sc |-> prog.sc, st |-> prog.st \o Carrier(prog, c, k) \o <<[c |-> c, k |-> k, n |-> n, ch |-> 0, w |-> 1]>>])
 
 AddExprScope(c, k, kind) ==
   /\ k \in PosOf(KindS(prog, c)) \cap PosOn \cap ExprPos
   /\ Room(prog, c) /\ NSc(prog) < MaxScopes /\ Depth(prog, c) < MaxDepth /\ After(prog, c, k, NoName)
-  /\ Put([sc |-> Append(prog.sc, [kind |-> kind, site |-> NSt(prog) + 1]),
-          st |-> Append(prog.st, [c |-> c, k |-> k, n |-> NoName, ch |-> NSc(prog) + 1])])
+  /\ LET st2 == prog.st \o Carrier(prog, c, k) IN
+     Put([sc |-> Append(prog.sc, [kind |-> kind, site |-> Len(st2) + 1]),
+          st |-> Append(st2, [c |-> c, k |-> k, n |-> NoName, ch |-> NSc(prog) + 1, w |-> 1])])
 
 AddDef(c, kind, n) ==
   LET k == IF kind = "function" THEN "def" ELSE "class" IN
   /\ KindS(prog, c) \in BodyKinds /\ k \in PosOn
   /\ Room(prog, c) /\ Weight(prog) + 1 < MaxWeight
-  /\ Cardinality(Named(prog)) < MaxNamed /\ NSc(prog) < MaxScopes /\ Depth(prog, c) < MaxDepth /\ After(prog, c, k, n)
+  /\ Cardinality(Charged(prog)) < MaxNamed /\ NSc(prog) < MaxScopes /\ Depth(prog, c) < MaxDepth /\ After(prog, c, k, n)
   /\ Put([sc |-> Append(prog.sc, [kind |-> kind, site |-> NSt(prog) + 1]),
-          st |-> Append(prog.st, [c |-> c, k |-> k, n |-> n, ch |-> NSc(prog) + 1])])
+          st |-> Append(prog.st, [c |-> c, k |-> k, n |-> n, ch |-> NSc(prog) + 1, w |-> 1])])
 
 Open == IF Weight(prog) < MaxWeight
-        THEN {x \in 1..NSc(prog) : x >= LastKey(prog)[1] /\ Cardinality(SitesIn(prog, x)) < MaxPerScope} ELSE {}
+        THEN {x \in 1..NSc(prog) : x >= LastKey(prog)[1] /\ Cardinality(ChargedIn(prog, x)) < MaxPerScope} ELSE {}
 DoAddName      == \E c \in Open : \E k \in PosOf(KindS(prog, c)) \cap PosOn, n \in NameChoices(prog) : AddName(c, k, n)
 DoAddExprScope == \E c \in Open : \E k \in PosOf(KindS(prog, c)) \cap PosOn \cap ExprPos, kind \in ExprScopeKinds :
                     AddExprScope(c, k, kind)
